@@ -101,7 +101,7 @@ def analyse(ctx, case, run, S):
                     num = (run.norm.frac(got) - run.norm.frac(want)).num
                     S.sync_terms(run.T)
                     if run.T.cval(num) == 0:
-                        ctx.D.record('valid-eq', 'mask', 'unsat', 0.0, 'unsat')
+                        ctx.D.record('syntactically-identical', 'mask', 'unsat', 0.0, 'unsat')
                         continue
                     ctx.solve(S, 'valid-eq', '%s: result[%d][%d] == blinding of member at position %d (%s)' % (case['name'], i, kk, i, v['action']),
                               run.side_conditions() + ['(not (= t%d 0.0))' % num], cfg=cfg, key='C03:mask-position', pred='mask_wrong')
@@ -125,8 +125,8 @@ def analyse(ctx, case, run, S):
                     break
             if ctx.expect(nz is not None, 'C03:invalid-residual-zero', '%s: residual vanishes with an invalid member' % case['name'], cfg, 'tampered_accepted'):
                 num = run.norm.nm(nz[1])[0]
-                ctx.solve(S, 'not-identically-zero', '%s residual[%s]' % (case['name'], run.basis_name(nz[0])), run.side_conditions() + ['(not (= t%d 0.0))' % num], expect='sat',
-                          cfg=cfg, key='C03:invalid-residual-zero', pred='tampered_accepted')
+                ctx.solve_nonzero(S, run, '%s residual[%s]' % (case['name'], run.basis_name(nz[0])), num, run.side_conditions(),
+                                  cfg=cfg, key='C03:invalid-residual-zero', pred='tampered_accepted')
         return
     if kind == 'examined':
         infos = run.out['members']
